@@ -69,6 +69,21 @@ def shortif_else_stat():
     return ('stat', pi, kids)
 
 
+def shortif_qprint_stat(with_else=False):
+    """if ( a ) ? b      /   if ( a ) c = d else ? b"""
+    pi = [i for i, (l, _) in enumerate(L.G['stat']) if l == 'shortif'][0]
+    syms = L.G['stat'][pi][1]
+    kids = [L.min_tree(x) for x in syms]
+    qi = [i for i, (l, _) in enumerate(L.G['slstat']) if l == 'qprint'][0]
+    qp = ('slstat', qi, [L.T('?'), L.min_tree('explist')])
+    sl_q = ('slstats', 0, [qp])
+    if with_else:
+        kids[5] = ('slelse', 1, [L.T('else'), sl_q])
+    else:
+        kids[4] = sl_q
+    return ('stat', pi, kids)
+
+
 def block_of(stats, last=None):
     return L.wrap_stats(stats, last=last)[2][0]
 
@@ -114,6 +129,13 @@ def fam_nest():
             yield L.wrap_stats([host_with_block(h1, block_of([host_with_block(h2, block_of([sie, sie, L.default_stat('assign')])),
                                                               L.default_stat('assign')]))])
     yield L.wrap_stats([sie, L.default_stat('do'), sie, L.default_stat('assign')])
+    # a ? print inside a short-if line (then part / else part), followed by more statements
+    for siq in (shortif_qprint_stat(False), shortif_qprint_stat(True)):
+        yield L.wrap_stats([siq, L.default_stat('assign'), L.default_stat('callstat')])
+        yield L.wrap_stats([siq, siq, L.default_stat('local')])
+        for h1 in HOSTS:
+            yield L.wrap_stats([host_with_block(h1, block_of([siq, L.default_stat('assign'), L.default_stat('callstat')])),
+                                L.default_stat('assign')])
     # if / elseif / else chains hosting line-scoped statements
     ifp = [pi for pi, (l, _) in enumerate(L.G['stat']) if l == 'if'][0]
     for inner in ('shortif', 'qprint', 'assign', 'callstat'):
@@ -207,7 +229,7 @@ def check_program(prog, src, res, desc, family):
         return
     if len(prog.toks) >= 4:
         res.nontriv(src)
-    qp = has_qprint(prog.skeleton)
+    qp = False      # ('?' print statements are ordinary statements since the parser learnt them)
     try:
         obj = lua.Lua.from_lines([src], version=8)
     except Exception as e:
